@@ -477,6 +477,75 @@ def r_objective_is_a_function_of_the_schedule(ctx):
     indicators.r_minmax(ctx)
 
 
+def r_weight_forwarded(ctx):
+    """'the weighted sum of several objectives ... any weights': `weight` is a declared field of every objective class, so
+    `ObjectiveMinimizeMakespan(weight=5)` is accepted - the weight the caller gives must be the weight the weighted sum uses.
+    Decided per objective constructor: the value stored in `weight` is the caller's `data['weight']` whenever one is given
+    (the two *Indicator classes forward it: R-DIRECTION)."""
+    proj = ctx.project
+    n = 0
+    for c in proj.subclasses("Objective"):
+        runs = runs_of(ctx, Entry("init", cls=c.name, opaque=OPQ))
+        fails_closed(ctx, "R-WEIGHT", runs)
+        bad = False
+        seen = False
+        for run in runs:
+            if run.rejected:
+                continue
+            seen = True
+            w = run.heap.get((SELF, "weight"))
+            if not (isinstance(w, tuple) and "weight" in show(w) and "data" in show(w)):
+                bad = True
+        if not seen:
+            continue
+        n += 1
+        if bad:
+            ctx.violation("R-WEIGHT", f"{c.name}.__init__", "the caller's weight is dropped",
+                          f"{c.name} accepts a `weight` argument (declared field of Objective) but builds itself without it: the weight is "
+                          f"silently 1, so the solver optimises another weighted sum than the one declared "
+                          f"(ObjectiveMinimizeMakespan(weight=5) + ObjectiveMinimizeResourceCost(weight=1): 24 returned, 18 is optimal)",
+                          first_line(proj, c.name))
+        else:
+            ctx.ok("R-WEIGHT", f"{c.name}: the caller's weight is the objective's weight")
+    ctx.floor("R-WEIGHT", "objective classes", n, 10)
+
+
+def r_bound_asserted(ctx):
+    """the third writer of `Indicator.bounds` is the caller (constructor argument).  docs/indicator.md: 'Bounds are constraints over
+    an indicator value' - and the incremental optimiser treats reaching one as a proof of optimality, which z3.Optimize knows
+    nothing about: the two agree only if the bounds the caller gives are asserted.  Decided on Indicator.__init__: on the paths
+    where bounds are given, `variable >= bounds[0]` and `variable <= bounds[1]` are asserted (each possibly under its own
+    `is not None` test)."""
+    from rules.indicators import ind_var
+    n = 0
+    for cname in ("IndicatorFromMathExpression",):
+        runs = runs_of(ctx, Entry("init", cls=cname))
+        fails_closed(ctx, "R-BOUND-ASSERTED", runs)
+        for run in runs:
+            if run.rejected or dict(run.decisions).get("self.bounds is None") is not False:
+                continue
+            n += 1
+            var = ind_var(run)
+            b = A(SELF, "bounds")
+            own = [norm(e.term) for e in run.emissions if e.owner == SELF and not e.loops]
+            from sa.decide import canon
+            lo_ok = any(canon(t) == canon(ge(var, ("idx", b, K(0)))) for t in own)
+            hi_ok = any(canon(t) == canon(le(var, ("idx", b, K(1)))) for t in own)
+            if lo_ok and hi_ok:
+                ctx.ok("R-BOUND-ASSERTED", f"{cname}: bounds given by the caller are asserted on the indicator variable")
+            else:
+                ctx.violation("R-BOUND-ASSERTED", "Indicator.__init__", "bounds given by the caller are asserted",
+                              f"with bounds given, the constructor asserts {[show(t)[:70] for t in own]}: "
+                              f"{'the lower' if not lo_ok else 'the upper'} bound is not a constraint on the indicator variable, but the "
+                              f"incremental optimiser stops with 'optimum found' on reaching it while z3.Optimize goes on (bounds (0, 10) on "
+                              f"a maximised start: 10 against 17)", first_line(ctx.project, "Indicator"))
+    if n == 0:
+        ctx.violation("R-BOUND-ASSERTED", "Indicator.__init__", "bounds given by the caller are asserted",
+                      "no constructor path looks at `self.bounds`: bounds given by the caller are never asserted, yet the incremental "
+                      "optimiser stops with 'optimum found' on reaching one while z3.Optimize goes on (bounds (0, 10) on a maximised "
+                      "start: 10 against 17)", first_line(ctx.project, "Indicator"))
+
+
 JUSTIFIED_BOUNDS = {
     "IndicatorResourceUtilization": ("(0,100)", "a percentage of the horizon: between 0 and 100 by definition"),
 }
@@ -532,7 +601,7 @@ def r_bound_provenance(ctx):
 
 
 C07_RULES = [r_direction, r_improve_loop, r_weighted, r_opt_wiring, r_objective_handed, r_makespan_is_the_horizon,
-             r_objective_is_a_function_of_the_schedule, r_bound_provenance]
+             r_objective_is_a_function_of_the_schedule, r_bound_provenance, r_bound_asserted, r_weight_forwarded]
 
 
 # ---------------------------------------------------------------------------
@@ -646,6 +715,33 @@ def r_every_timing_admitted(ctx):
     completeness.r_stream_groups_decided(ctx)
 
 
+def r_var_request_is_scoped(ctx):
+    """find_another_solution_for_variable asks for a schedule in which one variable differs from its current value.  The clause
+    `variable != value` excludes every schedule with that value - far more than the schedules returned so far - so it may only
+    hold for the duration of that request (pushed, checked, popped): left on the solver, it makes every later request fail or
+    skip schedules that were never returned ('fails only when no such schedule is left', 'visits every distinct valid timing').
+    (find_another_solution's own clause blocks exactly the timing just returned and is rightly permanent: R-BLOCK-CLAUSE.)"""
+    c = ctx.project.cls("SchedulingSolver")
+    name = "find_another_solution_for_variable"
+    if name not in c.methods:
+        raise P.AnalysisError(f"R-VAR-SCOPE: anchor vanished: SchedulingSolver.{name}")
+    g = C.CFG(c.methods[name])
+    sites = g.find(lambda x: any(C.has_call(x, a) for a in ASSERT_CALLS))
+    pushes = g.find(lambda x: C.has_call(x, "_solver.push"))
+    pops = g.find(lambda x: C.has_call(x, "_solver.pop"))
+    ctx.floor("R-VAR-SCOPE", "assertion sites of find_another_solution_for_variable", len(sites), 1)
+    for s_ in sites:
+        unscoped = g.path_avoiding(g.entry, s_, lambda z: z in pushes) is not None
+        leaks = unscoped or not pops or g.path_avoiding(s_, g.exit, lambda z: z in pops) is not None
+        if leaks:
+            ctx.violation("R-VAR-SCOPE", f"SchedulingSolver.{name}", "the exclusion of the current value outlives the request",
+                          f"`{s_.src()[:80]}` is asserted without a push() / is not popped on every exit: every schedule in which the "
+                          f"variable has that value is lost to all later requests, returned or not (horizon 2, A and B of duration 1: after "
+                          f"one request for A's start only 3 of the 4 timings are ever visited)", srcline(s_))
+        else:
+            ctx.ok("R-VAR-SCOPE", f"SchedulingSolver.{name}: the exclusion holds for the request only")
+
+
 def r_enumerated_are_valid(ctx):
     """'each request returns a valid schedule ... visits every distinct valid timing exactly once': the enumeration walks the
     models of the asserted system, so it returns only valid timings (and as many as there are) exactly when every task's own
@@ -655,7 +751,7 @@ def r_enumerated_are_valid(ctx):
 
 
 C12_RULES = [r_block_clause, r_chained_cmp, lambda ctx: r_scoped_assert(ctx), lambda ctx: r_push_pop(ctx), r_unique_unscheduled,
-             lambda ctx: r_check_fresh(ctx), r_every_timing_admitted, r_enumerated_are_valid]
+             lambda ctx: r_check_fresh(ctx), r_every_timing_admitted, r_enumerated_are_valid, r_var_request_is_scoped]
 
 
 # ---------------------------------------------------------------------------
@@ -1130,7 +1226,7 @@ def r_option_table(ctx):
 
 # the two optimisers can only agree on the optimum if the incremental loop's direction table and typestate hold
 C15_RULES = [r_option_noninterference, r_option_table, r_opt_wiring, r_direction, r_improve_loop, r_weighted, r_objective_handed,
-             r_bound_provenance]
+             r_bound_provenance, r_bound_asserted]
 
 
 def _core_reader(ctx):
@@ -1277,4 +1373,6 @@ def r_conflict_attributed(ctx):
     logic.r_own_assertions(ctx)
 
 
-C19_RULES = [r_core_map, r_option_noninterference, r_option_table, r_conflict_attributed]
+C19_RULES = [r_core_map, r_option_noninterference, r_option_table, r_conflict_attributed,
+             # a constraint that owns no assertion can never be named in a conflict (R-EFFECT-ONLY, shared with C10)
+             lambda ctx: __import__("rules.logic", fromlist=["x"]).r_effect_only_constraints(ctx)]
